@@ -24,7 +24,7 @@ TRUSTED_BASE = [
     "no Axiom/Parameter/Admitted in the development (grep + Print Assumptions on every run)",
     "extraction: ExtrOcamlBasic only (bool/option/list/prod/unit/sumbool mapped to OCaml's), OCaml 4.13.1, extract/*.ml drivers",
     "correspondence: Rust harness built from /repo with --cfg brood_verif (hooks H1 verif_dump, H2 rayon shim), canonicalisation in lib/*.py",
-    "tools/translate.py (decision tables), tools/translate_facts.py (structural facts), tools/translate_bytes.py (identifier-byte arithmetic): coq/Gen/*.v regenerated from /repo/src on every run",
+    "tools/translate.py (decision tables), tools/translate_facts.py (structural facts), tools/translate_bytes.py (identifier-byte arithmetic), tools/translate_subset.py (Entries sub-view table): coq/Gen/*.v regenerated from /repo/src on every run",
     "modelled by contract, not verified: Vec/VecDeque, hashbrown tables (arbitrary iteration order), rayon join/bridge, serde & serde_assert/serde_json, TypeId injectivity, rustc",
 ]
 
@@ -137,7 +137,7 @@ def build_extract():
     """Extract the model and build the OCaml drivers when stale."""
     with Lock("coq"):
         coq_makefile()
-        p = run(["timeout", "900", "make", "-j16", "Model/World.vo", "Model/Multi.vo", "Model/Query.vo", "Model/SerdeC.vo", "Model/Phys.vo"], cwd=COQ, check=False)
+        p = run(["timeout", "900", "make", "-j16", "Model/World.vo", "Model/Multi.vo", "Model/Query.vo", "Model/SerdeC.vo", "Model/Phys.vo", "Model/SubsetM.vo"], cwd=COQ, check=False)
         if p.returncode != 0:
             raise Infra("model does not compile:\n" + p.stdout[-3000:])
         os.makedirs(EXTRACT, exist_ok=True)
